@@ -668,7 +668,10 @@ def d9(ctx, prog):
         mu = arr.sum(axis=ax, keepdims=True) / n_ if ax is not None else arr.sum() / n_
         v = ((arr - mu) * (arr - mu)).sum(axis=ax) / n_
         return np.frompyfunc(lambda q: q.sqrt(), 1, 1)(v) if isinstance(v, np.ndarray) else v.sqrt()
-    summ = {'nanmean': nanmean, 'mean': nanmean, 'nanstd': nanstd, 'std': nanstd, 'result_type': lambda a, k: None, 'promote_types': lambda a, k: None,
+    def nanvar(a, k):
+        sd_ = nanstd(a, k)
+        return sd_ * sd_
+    summ = {'nanmean': nanmean, 'mean': nanmean, 'nanstd': nanstd, 'std': nanstd, 'nanvar': nanvar, 'var': nanvar, 'result_type': lambda a, k: None, 'promote_types': lambda a, k: None,
             'square': lambda a, k: a[0] * a[0], 'power': lambda a, k: a[0] ** a[1], 'dtype': lambda a, k: None}
     pts = [{**{f'x{n_}{s_}': v for (n_, s_), v in zip([(a, b) for a in range(N) for b in range(S)], vals)}, 'm0': 2, 'm1': 5, 'd0': 3, 'd1': 7}
            for vals in ((1, 4, 6, 2, 9, 7), (8, 1, 3, 5, 2, 11))]
